@@ -18,6 +18,9 @@ can panic or fail to terminate (C12)
      (`decision.rs:149-166`, `business_knowledge_model.rs:302-318`, `decision_service.rs:144-176`).
    Each is modelled with **fuel** = a bound on the depth of reference-following; running out
    of fuel is the outcome `diverge` (the implementation overflows its stack).
+3. Since aff91af / b66efe5 `ModelEvaluator::new` first checks that these chains end
+   (`check_requirements`, `model_evaluator.rs:50-93`; `check_references`,
+   `item_definition.rs:75-93`): a chain longer than the number of elements is an error.
 
 Identifiers and item-definition names are numbers here (the harness numbers them); they are
 assumed pairwise distinct per kind.
@@ -168,11 +171,44 @@ end
 
 /-- `ItemDefinitionTypeEvaluator::eval(type_ref)` with depth bound `fuel`. -/
 def walkName (items : List (Nat × Item)) : Nat → Nat → WRes
-  | 0, _ => .diverge
-  | f + 1, n =>
+  | fuel, n =>
     match lookupItem items n with
     | none => .missing
-    | some it => walkWith (walkName items f) it
+    | some it =>
+      match fuel with
+      | 0 => .diverge
+      | f + 1 => walkWith (walkName items f) it
+
+mutual
+/-- `check_references` on one item definition (`item_definition.rs:80-91`): the referenced
+item definition is checked with the chain one longer (`k`), the components with the same length. -/
+def refsOkWith (k : Nat → Bool) : Item → Bool
+  | .simple => true
+  | .collSimple => true
+  | .ref n => k n
+  | .collRef n => k n
+  | .comp cs => refsOkAll k cs
+  | .collComp cs => refsOkAll k cs
+def refsOkAll (k : Nat → Bool) : List Item → Bool
+  | [] => true
+  | c :: cs => refsOkWith k c && refsOkAll k cs
+end
+
+/-- `check_references(referenced, definitions, length)` with `budget` = the number of further
+item definitions the chain may still visit: `length > item_definitions.len()` is `budget = 0`. -/
+def itemChain (items : List (Nat × Item)) : Nat → Nat → Bool
+  | budget, n =>
+    match lookupItem items n with
+    | none => true
+    | some it =>
+      match budget with
+      | 0 => false
+      | b + 1 => refsOkWith (itemChain items b) it
+
+/-- The check of `ItemDefinitionEvaluator::build`: every top-level item definition starts a
+chain of length 1. -/
+def itemCheck (items : List (Nat × Item)) : Bool :=
+  items.all (fun e => refsOkWith (itemChain items (items.length - 1)) e.2)
 
 /-- A type reference of a variable: a built-in type name, or the name of an item definition. -/
 inductive TypeRef where
@@ -252,10 +288,12 @@ def findInput (d : Defs) (id : Nat) : Option Input := d.inputs.find? (·.id = id
 (`decision.rs:198-216`): a knowledge model recurses into its own requirements, a decision
 service does not, anything else is an error. -/
 def bringOne (d : Defs) : Nat → Nat → Res
-  | 0, _ => .diverge
-  | f + 1, id =>
+  | fuel, id =>
     match findBkm d id with
-    | some b => allM (bringOne d f) b.reqs
+    | some b =>
+      match fuel with
+      | 0 => .diverge
+      | f + 1 => allM (bringOne d f) b.reqs
     | none => if (findService d id).isSome then .ok else .error
 
 /-- `bring_knowledge_requirements_into_context(definitions, requirements, ctx)`. -/
@@ -308,10 +346,51 @@ def buildService (d : Defs) (fuel : Nat) (s : Service) : Res :=
       | some x => walkRef d.items fuel x.varType
       | none => .ok) s.inputDecisions
 
-/-- `ModelEvaluator::new` as far as references are followed: input data need a type
-reference; then knowledge models, decisions, decision services in document order. -/
+/-! `check_requirements` (`model_evaluator.rs:50-93`): the map from the identifier of a
+decision, knowledge model or decision service to the identifiers it requires. -/
+
+/-- The identifiers a decision requires: required decisions and required knowledge. -/
+def Decision.required (x : Decision) : List Nat := x.info.filterMap (·.reqDecision) ++ x.knowledge
+/-- The decisions of a decision service. -/
+def Service.required (s : Service) : List Nat := s.inputDecisions ++ s.encapsulated ++ s.outputs
+
+/-- The keys of the map. -/
+def allIds (d : Defs) : List Nat :=
+  d.decisions.map (·.id) ++ d.bkms.map (·.id) ++ d.services.map (·.id)
+
+/-- `requirements.get(id)`: entries of elements sharing an identifier are merged. -/
+def reqList (d : Defs) (id : Nat) : List Nat :=
+  ((d.decisions.filter (·.id = id)).flatMap Decision.required) ++
+    ((d.bkms.filter (·.id = id)).flatMap (·.reqs)) ++
+    ((d.services.filter (·.id = id)).flatMap Service.required)
+
+def reqsOf (d : Defs) (id : Nat) : Option (List Nat) :=
+  if id ∈ allIds d then some (reqList d id) else none
+
+/-- `check_chain(id, requirements, length)` with `budget` = the number of further elements the
+chain may still visit: `length > requirements.len()` is `budget = 0`. -/
+def reqChain (d : Defs) : Nat → Nat → Bool
+  | budget, id =>
+    match reqsOf d id with
+    | none => true
+    | some rs =>
+      match budget with
+      | 0 => false
+      | b + 1 => rs.all (reqChain d b)
+
+/-- `requirements.len()`. -/
+def nodeCount (d : Defs) : Nat := (allIds d).eraseDups.length
+
+/-- `requirements.keys().try_for_each(|id| check_chain(id, &requirements, 1))`. -/
+def reqCheck (d : Defs) : Bool := (allIds d).all (reqChain d (nodeCount d))
+
+/-- `ModelEvaluator::new` as far as references are followed: the requirement graph must be
+acyclic; input data need a type reference; item definitions must not refer to themselves; then
+knowledge models, decisions, decision services in document order. -/
 def build (d : Defs) (fuel : Nat) : Res :=
+  if !reqCheck d then .error else
   seq (forM (fun i : Input => if i.typeRef.isSome then Res.ok else Res.error) d.inputs) fun _ =>
+  if !itemCheck d.items then .error else
   seq (forM (buildBkm d fuel) d.bkms) fun _ =>
   seq (forM (buildDecision d fuel) d.decisions) fun _ =>
   forM (buildService d fuel) d.services
@@ -322,33 +401,38 @@ its own logic runs.  Unknown identifiers are skipped (`HashMap::get` → `None`)
 mutual
 /-- The decision closure (`decision.rs:141-190`): required knowledge, then required decisions. -/
 def evalDecision (d : Defs) : Nat → Nat → Res
-  | 0, _ => .diverge
-  | f + 1, id =>
+  | fuel, id =>
     match findDecision d id with
     | none => .ok
     | some x =>
-      seq (allM (evalBkm d f) x.knowledge) fun _ =>
-      allM (evalDecision d f) (x.info.filterMap (·.reqDecision))
+      match fuel with
+      | 0 => .diverge
+      | f + 1 =>
+        seq (allM (evalBkm d f) x.knowledge) fun _ =>
+        allM (evalDecision d f) (x.info.filterMap (·.reqDecision))
 /-- The knowledge-model closure (`business_knowledge_model.rs:302-318`): every requirement is
 evaluated as a knowledge model and as a decision service. -/
 def evalBkm (d : Defs) : Nat → Nat → Res
-  | 0, _ => .diverge
-  | f + 1, id =>
+  | fuel, id =>
     match findBkm d id with
     | none => .ok
     | some b =>
-      allM (fun r => seq (evalBkm d f r) fun _ => evalService d f r) b.reqs
+      match fuel with
+      | 0 => .diverge
+      | f + 1 => allM (fun r => seq (evalBkm d f r) fun _ => evalService d f r) b.reqs
 /-- The decision-service closure (`decision_service.rs:144-176`): input, encapsulated and
 output decisions. -/
 def evalService (d : Defs) : Nat → Nat → Res
-  | 0, _ => .diverge
-  | f + 1, id =>
+  | fuel, id =>
     match findService d id with
     | none => .ok
     | some s =>
-      seq (allM (evalDecision d f) s.inputDecisions) fun _ =>
-      seq (allM (evalDecision d f) s.encapsulated) fun _ =>
-      allM (evalDecision d f) s.outputs
+      match fuel with
+      | 0 => .diverge
+      | f + 1 =>
+        seq (allM (evalDecision d f) s.inputDecisions) fun _ =>
+        seq (allM (evalDecision d f) s.encapsulated) fun _ =>
+        allM (evalDecision d f) s.outputs
 end
 
 end Dmn.MB
